@@ -84,7 +84,7 @@ type VFlow struct {
 
 // transparent transformers: result is derived from the listed operands only.
 var transformers = map[string]bool{
-	"fmt.Sprintf": true, "fmt.Sprint": true, "fmt.Errorf": true, "(time.Time).Format": true, "net/url.QueryEscape": true,
+	"fmt.Sprintf": true, "fmt.Sprint": true, "fmt.Errorf": true, "errors.New": true, "(time.Time).Format": true, "net/url.QueryEscape": true,
 	"(*encoding/base64.Encoding).EncodeToString": true, "strings.TrimPrefix": true, "strings.TrimSuffix": true, "strings.TrimSpace": true,
 	"strings.ToLower": true, "strings.ToUpper": true, "strings.Join": true, "strings.Fields": true, "strings.Replace": true, "strings.ReplaceAll": true,
 	"(time.Time).Add": true, "(time.Time).UTC": true, "net/http.CanonicalHeaderKey": true, "strings.Trim": true, "strings.TrimRight": true, "strings.TrimLeft": true,
